@@ -35,7 +35,10 @@ def strategy(tier, mode=None):
         m = draw(S.general_model(max_states=4, max_params=4, min_params=0, max_events=4, min_events=1))
         pt = draw(S.point(m))
         n_s, n_p = len(ir.state_names(m)), len(m["params"])
-        Sv = [draw(S.fl(-2.0, 2.0, 3)) + 0.013 * i for i in range(n_s * n_p)]
+        # sensitivities of every size: O(1), or uniformly tiny (early in an outbreak seeded with 1e-12, parameters that barely
+        # matter yet) - non-zero all the same
+        sc = draw(st.sampled_from([1.0, 1.0, 1.0, 1e-6, 1e-9, 1e-11]))
+        Sv = [(draw(S.fl(-2.0, 2.0, 3)) + 0.013 * (i + 1)) * sc for i in range(n_s * n_p)]
         S0 = [draw(S.fl(-2.0, 2.0, 3)) + 0.017 * i for i in range(n_s * n_s)]
         return {"part": "algebra", "model": m, "point": pt, "S": Sv, "S0": S0,
                 "conv": draw(st.sampled_from(["state-first", "time-first"]))}
@@ -81,8 +84,14 @@ def _algebra(case, rec):
     Smat = np.array(case["S"], float).reshape(n_s, n_p)
     S0 = np.array(case["S0"], float).reshape(n_s, n_s)
     rec.label("nS:%d" % n_s, "nP:%d" % n_p)
+    if Smat.size and np.abs(Smat).max() < 1e-5:
+        rec.label("sensitivities:tiny")
     dS = d["J"].dot(Smat) + d["G"]
     dS0 = d["J"].dot(S0)
+    # size of the terms summed into the reference entries (rounding noise of the reference scales with it)
+    smax = 1.0 + float(max(np.abs(Smat).max() if Smat.size else 0.0, np.abs(S0).max()))
+    t1 = max(d["mag0"], d["mag1"] * smax * max(1, n_s))
+    t2 = (d["mag2"] * smax * max(1, n_s) + d["mag1"])
     if n_p:
         for by_state in (False, True):
             tag = "by_state" if by_state else "by_param"
@@ -91,11 +100,11 @@ def _algebra(case, rec):
             want = np.concatenate([d["f"], dS.reshape(-1) if by_state else dS.reshape(-1, order="F")])
             got = arr(call("C13/ode_and_sensitivity/" + tag, case, conv_fn(model, "ode_and_sensitivity", conv), z, t, by_state), want.shape,
                       "ode_and_sensitivity", "C13/ode_and_sensitivity/" + tag, case)
-            cmp(got, want, "ode_and_sensitivity(%s)" % tag, "C13/ode_and_sensitivity/" + tag, case, 1e-8)
+            cmp(got, want, "ode_and_sensitivity(%s)" % tag, "C13/ode_and_sensitivity/" + tag, case, 1e-8, terms=t1)
             A = _ref_rhs_jac(d, Smat, n_s, n_p, by_state)
             gotA = arr(call("C13/ode_and_sensitivity_jacobian/" + tag, case, conv_fn(model, "ode_and_sensitivity_jacobian", conv), z, t, by_state),
                        A.shape, "ode_and_sensitivity_jacobian", "C13/ode_and_sensitivity_jacobian/" + tag, case)
-            cmp(gotA, A, "ode_and_sensitivity_jacobian(%s)" % tag, "C13/ode_and_sensitivity_jacobian/" + tag, case, 1e-8, 1e-10)
+            cmp(gotA, A, "ode_and_sensitivity_jacobian(%s)" % tag, "C13/ode_and_sensitivity_jacobian/" + tag, case, 1e-8, 1e-10, terms=t2)
         z = np.concatenate([x, Smat.reshape(-1, order="F")])
         want = np.zeros((n_s * n_p, n_s))
         for i in range(n_s):
@@ -104,13 +113,13 @@ def _algebra(case, rec):
                     want[k * n_s + i, l] = sum(d["Hxx"][i, j, l] * Smat[j, k] for j in range(n_s))
         got = arr(call("C13/sens_jacobian_state", case, conv_fn(model, "sens_jacobian_state", conv), z, t), want.shape, "sens_jacobian_state",
                   "C13/sens_jacobian_state", case)
-        cmp(got, want, "sens_jacobian_state", "C13/sens_jacobian_state", case, 1e-8, 1e-10)
+        cmp(got, want, "sens_jacobian_state", "C13/sens_jacobian_state", case, 1e-8, 1e-10, terms=t2)
     # initial-value variant (also for models without parameters)
     z = np.concatenate([x, Smat.reshape(-1, order="F"), S0.reshape(-1, order="F")])
     want = np.concatenate([d["f"], dS.reshape(-1, order="F"), dS0.reshape(-1, order="F")])
     got = arr(call("C13/ode_and_sensitivityIV", case, conv_fn(model, "ode_and_sensitivityIV", conv), z, t), want.shape, "ode_and_sensitivityIV",
               "C13/ode_and_sensitivityIV", case)
-    cmp(got, want, "ode_and_sensitivityIV", "C13/ode_and_sensitivityIV", case, 1e-8)
+    cmp(got, want, "ode_and_sensitivityIV", "C13/ode_and_sensitivityIV", case, 1e-8, terms=t1)
     n1 = n_s + n_s * n_p
     n = n1 + n_s * n_s
     A = np.zeros((n, n))
@@ -124,7 +133,7 @@ def _algebra(case, rec):
                 A[r, n1 + c * n_s + j] += d["J"][i, j]
     gotA = arr(call("C13/ode_and_sensitivityIV_jacobian", case, conv_fn(model, "ode_and_sensitivityIV_jacobian", conv), z, t), A.shape,
                "ode_and_sensitivityIV_jacobian", "C13/ode_and_sensitivityIV_jacobian", case)
-    cmp(gotA, A, "ode_and_sensitivityIV_jacobian", "C13/ode_and_sensitivityIV_jacobian", case, 1e-8, 1e-10)
+    cmp(gotA, A, "ode_and_sensitivityIV_jacobian", "C13/ode_and_sensitivityIV_jacobian", case, 1e-8, 1e-10, terms=t2)
     if n_s != n_p and n_s >= 2 and n_p >= 2:
         rec.mark_nontrivial(case, {"model": pretty(m), "point": pt, "S": case["S"]})
 
